@@ -14,6 +14,13 @@ pub fn eval(cfg: &Cfg, input: &[u8], st: &mut Stats) -> Result<(), String> {
         Enc::Panic(p) => return Err(format!("encode: {}", p)),
         Enc::Refused(_) => {
             st.count("refused");
+            // a message with a complete envelope whose compacted form obviously fits must be compacted
+            if let (true, Some((_, body))) = (cfg.macros && !cfg.fnc1 && cfg.modes & 1 == 1 && cfg.eci.is_none(), macro_split(input)) {
+                let need = 1 + crate::refmodel::encoder::ascii_size(body);
+                if need <= cfg.list.max_capacity() {
+                    return Err(format!("refused although macro codeword + body in plain ASCII need only {} codewords (largest listed symbol holds {})", need, cfg.list.max_capacity()));
+                }
+            }
             return Ok(());
         }
         Enc::Ok(dm) => dm,
@@ -73,7 +80,7 @@ pub fn run(ctx: &Ctx) -> i32 {
         Part {
             name: "ES-F macro shapes (short bodies) x mode sets x lists",
             family: gen::es_f(1),
-            cfgs: gen::cfgs(&gen::modes_quick(), &[d, ListMask::all(), ListMask::single(gen::idx(14, 14)), ListMask::single(gen::idx(16, 16))], &both, &both),
+            cfgs: gen::cfgs(&gen::modes_quick(), &[d, ListMask::all(), ListMask::single(gen::idx(10, 10)), ListMask::single(gen::idx(12, 12)), ListMask::single(gen::idx(8, 18)), ListMask::single(gen::idx(14, 14)), ListMask::single(gen::idx(16, 16))], &both, &both),
         },
         Part {
             name: "macro envelope around sigma10 bodies",
@@ -104,7 +111,7 @@ pub fn run(ctx: &Ctx) -> i32 {
             family: {
                 let mut v = Vec::new();
                 for pat in gen::es_e_patterns() {
-                    for n in (0..200).chain([248, 249, 250, 251, 777, 1555, 3000, 3100, 3107, 3108]) {
+                    for n in (0..200).chain([248, 249, 250, 251, 777, 1555, 3000, 3100, 3105, 3106, 3107, 3108, 3109, 3110, 3111, 3112, 3113, 3114, 3115, 3116]) {
                         let mut x = gen::MACRO05.to_vec();
                         x.extend(pat.iter().cycle().take(n));
                         x.extend(gen::MACRO_TRAIL);
